@@ -7,7 +7,7 @@ from hypothesis import strategies as st
 
 from .. import hist, wire
 from ..engine import ok, require
-from ..simkit import (ADDRS, MCAST, FakeTransport, ServerRec, Sim, cfg, desc_semantic, install_random, lib_option, make_sd,
+from ..simkit import (ADDRS, MCAST, FakeTransport, HarnessError, ServerRec, Sim, cfg, desc_semantic, install_random, lib_option, make_sd,
                       sd, sd_bytes, sent_entries, service, timings)
 from ..vloop import RES
 
@@ -278,6 +278,8 @@ def run_case(case):
         require(not sim.loop.errors, "C10.loop-error", lambda: f"exception reached the event loop: {sim.loop.errors[:2]}")
         require(not sim.loop.task_errors(), "C10.loop-error", lambda: f"task failed: {sim.loop.task_errors()[:2]}")
 
+        if not queued and any(e["type"] == wire.OFFER for e in sent_entries(prot.transport)):
+            raise HarnessError("offers were transmitted but ServiceAnnouncer.queue_send was never called: the observation point of this check is gone")
         # ---- the uniform stub was asked for the configured windows only
         init_calls = []
         for a, b, v in stub.calls:
